@@ -112,7 +112,7 @@ fn dump(r: &HttpRequest) -> String {
         actix_web::http::Version::HTTP_2 => "2",
         _ => "?",
     };
-    let hs: Vec<String> = ["x-a", "x-b", "x-g"]
+    let hs: Vec<String> = ["x-a", "x-b", "x-g", "host"]
         .iter()
         .map(|n| {
             let vs: Vec<String> = r.headers().get_all(*n).map(|v| v.to_str().unwrap_or("?").to_owned()).collect();
@@ -124,11 +124,13 @@ fn dump(r: &HttpRequest) -> String {
         })
         .collect();
     let ps: Vec<String> = r.match_info().iter().map(|(k, v)| format!("{k}:{v}")).collect();
+    // derived data cached in the request extensions on first use
+    let ci = r.connection_info().host().to_owned();
     let ext = r.extensions();
     let xs = [ext.get::<E1>().map(|e| e.0), ext.get::<E2>().map(|e| e.0), ext.get::<E3>().map(|e| e.0)];
     let ds = [r.app_data::<DA>().map(|d| d.0), r.app_data::<DB>().map(|d| d.0), r.app_data::<DC>().map(|d| d.0)];
     format!(
-        "m={};u={};v={};p={};H={}/n{};P={};U={};X={};c={};D={};n={};t={}",
+        "m={};u={};v={};p={};H={}/n{};P={};U={};X={};c={};D={};ci={};n={};t={}",
         r.method(),
         r.uri(),
         ver,
@@ -140,6 +142,7 @@ fn dump(r: &HttpRequest) -> String {
         xs.iter().map(|x| opt(*x)).collect::<Vec<_>>().join(","),
         opt(r.conn_data::<ConnProbe>().map(|c| c.0)),
         ds.iter().map(|x| opt(*x)).collect::<Vec<_>>().join(","),
+        ci,
         r.match_name().unwrap_or("-"),
         r.match_pattern().unwrap_or_else(|| "-".into()),
     )
@@ -625,7 +628,7 @@ fn field<'a>(dump: &'a str, key: &str) -> &'a str {
 }
 
 fn expected_head(r: &ReqTok) -> String {
-    let hs: Vec<String> = ["x-a", "x-b", "x-g"]
+    let hs: Vec<String> = ["x-a", "x-b", "x-g", "host"]
         .iter()
         .map(|n| {
             let vs: Vec<&str> = r.hdrs.iter().filter(|(k, _)| k == n).map(|(_, v)| v.as_str()).collect();
@@ -863,7 +866,7 @@ fn gen_req(rng: &mut Rng, slots: u32) -> String {
     let peer = if rng.chance(1, 3) { rng.range(1000, 1003).to_string() } else { "-".into() };
     let mut hdrs = Vec::new();
     for _ in 0..rng.below(4) {
-        hdrs.push(format!("{}={}", rng.pick(&["x-a", "x-b", "x-g", "x-g", "x-z"]), rng.pick(&["1", "2", "v"])));
+        hdrs.push(format!("{}={}", rng.pick(&["x-a", "x-b", "x-g", "x-g", "x-z", "host"]), rng.pick(&["1", "2", "v"])));
     }
     let mut xd = Vec::new();
     if rng.chance(1, 5) {
